@@ -14,6 +14,7 @@ import drv_finders
 import drv_moon
 import drv_sun
 import drv_orbit
+import drv_kepler
 
 YMIN, YMAX = -4712, 6000
 
@@ -530,4 +531,33 @@ def plan_C07(tier, seed):
                      "direct-summation tolerance widened by 64 ulp of the unreduced series value (float noise of the summation itself)"])
 
 
-PLANS = {"C07": plan_C07, "C14": plan_C14, "C15": plan_C15, "C13": plan_C13, "C12": plan_C12, "C17": plan_C17, "C02": plan_C02, "C03": plan_C03, "C04": plan_C04, "C10": plan_C10, "C01": plan_C01, "C16": plan_C16, "C19": plan_C19}
+def _nt_c11(ev):
+    k = ev["k"]
+    if k == "kep":
+        return (k, ev["ef"], ev["Mf"])
+    if k == "pha":
+        return (k, ev["rf"], ev["df"], ev["Rf"])
+    if k == "node":
+        return (k, ev["omf"], ev["ef"], ev["af"], ev["asc"])
+    return (k, ev["af"], ev["ef"])
+
+
+def plan_C11(tier, seed):
+    T = ("Trace_Kepler", "Trace.cfg")
+    nk, nt, per = (12, 4, 1500) if tier == "quick" else (32, 16, 30000)
+    sh = [Shard("kepler_%02d" % i, drv_kepler.gen_kepler, dict(seed=seed, shard=i, n=per), *T) for i in range(nk)]
+    sh += [Shard("twobody_%02d" % i, drv_kepler.gen_twobody, dict(seed=seed, shard=i, n=per // 4), *T) for i in range(nt)]
+    return dict(
+        mc=[MC("MC_Bisect", "MC_Bisect.cfg", workers=2, heap="1g", note="Sinnott bisection on an abstract monotone function, every root position")],
+        shards=sh, level="model_checking", exhaustive=False, nontrivial=_nt_c11,
+        rule="kepler_equation for e from a fixed ladder up to 0.999999 and uniform in [0, 0.999999] x M in [-1e4, 1e4] incl. multiples "
+             "of 180 and their +-1e-9/1e-6/1e-3 neighbours, integers and uniform: TLC checks E - e sin E = M (mod 360, 5e-8 deg) with "
+             "the sine witness, same half revolution, tan(v/2) = w tan(E/2) cross-multiplied with w^2(1-e) = 1+e. Two-body helpers: "
+             "vis-viva equalities and vp*va = vc^2, 2 pi b <= length <= 2 pi a (sqrt witness) and continuity at e = 0.95, "
+             "k = (1+cos i)/2 and the law of cosines on triangle-feasible distances, node passage: mean anomaly from the returned "
+             "time, library kepler_equation there, true anomaly = -omega / 180-omega (mod 360) and radius. Distinct case = input tuple.",
+        assumptions=["mean anomalies are handed over as Angle objects (the API requires it), i.e. after the Angle's own reduction",
+                     "continuity across e = 0.95 means a relative step below 3e-4 (the two approximations differ by 1.4e-4 there)"])
+
+
+PLANS = {"C11": plan_C11, "C07": plan_C07, "C14": plan_C14, "C15": plan_C15, "C13": plan_C13, "C12": plan_C12, "C17": plan_C17, "C02": plan_C02, "C03": plan_C03, "C04": plan_C04, "C10": plan_C10, "C01": plan_C01, "C16": plan_C16, "C19": plan_C19}
